@@ -168,6 +168,8 @@ def check_doc(cls, xsd, doc, ctx, st, expect_valid=None, sources=True, cli=True,
             'lxml_tree': lambda: LET.fromstring(bdoc).getroottree(),
             'XMLResource': lambda: xmlschema.XMLResource(doc),
             'XMLResource_lazy': lambda: xmlschema.XMLResource(path, lazy=True),
+            'XMLResource_lazy2': lambda: xmlschema.XMLResource(path, lazy=2),
+            'XMLResource_lazy3': lambda: xmlschema.XMLResource(path, lazy=3),
         }
         base_errs = [compare.err_pos(e) for e in s.iter_errors(doc)]
         for name, mk in kinds.items():
@@ -176,6 +178,12 @@ def check_doc(cls, xsd, doc, ctx, st, expect_valid=None, sources=True, cli=True,
                 st.case()
                 nsrc += 1
                 got = [compare.err_pos(e) for e in s.iter_errors(src)]
+                if name in ('XMLResource_lazy2', 'XMLResource_lazy3'):
+                    # deeper lazy levels: only the VERDICT is compared (error lists at depth >= 2 are C06's exploration item)
+                    if (not got) != (not base_errs):
+                        out.append(rec('source_kind_verdict:' + name, 'valid' if not base_errs else 'invalid',
+                                       'valid' if not got else 'invalid'))
+                    continue
                 if name == 'XMLResource_lazy':
                     # paths of errors in pruned (lazy) trees are C06/C19's subject: compare classes
                     # (the ORDER of a lazy run's errors is C06's subject: the root's own errors come last there)
